@@ -162,6 +162,12 @@ CONSTRUCTED = [
     {"two_projects": False, "ops": [
         {"op": "new_init", "p": 0, "sp": {"a": 0}}, {"op": "write", "h": 0, "name": "f.txt", "data": "x"}, {"op": "plant_idfile", "p": 0, "sp": {"a": 1}},
         {"op": "sp_set", "h": 0, "k": "a", "v": 1}, {"op": "new_id", "p": 0, "k": 0, "how": "id"}, {"op": "touch_sp", "h": 1}]},
+    # clear() / reset() through one handle while other handles (independent, by id, shallow copy) hold the loaded document
+    {"two_projects": False, "ops": [
+        {"op": "new_init", "p": 0, "sp": {"a": 0}}, {"op": "doc_update", "h": 0, "m": {"x": 0, "y": 0}}, {"op": "new_sp", "p": 0, "sp": {"a": 0}},
+        {"op": "doc_set", "h": 1, "k": "foo", "v": 1}, {"op": "new_id", "p": 0, "k": 0, "how": "id"}, {"op": "doc_set", "h": 2, "k": "x", "v": 3},
+        {"op": "clear", "h": 0}, {"op": "doc_set", "h": 1, "k": "y", "v": True}, {"op": "reset", "h": 2}, {"op": "doc_set", "h": 0, "k": "x", "v": 1},
+        {"op": "write", "h": 1, "name": "f.txt", "data": "x"}, {"op": "clear", "h": 1}, {"op": "touch_sp", "h": 0}]},
     # reset() through a handle whose job was removed through another handle: the job exists again, empty
     {"two_projects": False, "ops": [
         {"op": "new_init", "p": 0, "sp": {"a": 0}}, {"op": "write", "h": 0, "name": "f.txt", "data": "x"}, {"op": "new_sp", "p": 0, "sp": {"a": 0}},
